@@ -48,6 +48,9 @@ func runC02(c *core.Ctx) {
 	pairingRules(c)
 	c.Doc("first-match", 3, "lookups return the first element matching exactly")
 	firstMatchRules(c)
+	// "... or panics": a panic raised during derivation reaches the caller
+	c.Doc("panic-propagates", 1, "no function of hseq / optics swallows a panic: where recover() answers non-nil, every path panics again")
+	panicPropagates(c, "panic-propagates", "hseq", "optics")
 
 	nt := lensType(c)
 	if nt == nil {
@@ -418,6 +421,8 @@ func guardRules(c *core.Ctx) {
 					}
 					if paramOf(kv.Args[0], fn, 0) {
 						nDesc++
+					} else if v := kv.Args[0]; v.Op == "pure" && (strings.HasPrefix(v.Aux, "fmt.Sprint") || strings.HasPrefix(v.Aux, "strconv.")) {
+						// a formatted string (a debug name): holds no reference, decides no address
 					} else if !pureOverParam(kv.Args[0], fn, 0) {
 						derived = false
 					}
@@ -475,7 +480,9 @@ func pureOverParam(t *ir.Term, fn *ssa.Function, i int) bool {
 			} else {
 				ok = false
 			}
-		case "bin", "field", "conv", "un":
+		case "bin", "field", "conv", "un", "pure", "rtype", "method", "len":
+			// pure: the modelled side-effect free library functions (fmt.Sprintf for a debug name, reflect's
+			// accessors); rtype: the reflect.Type of a type parameter - a constant of the instantiation
 		default:
 			ok = false
 		}
@@ -490,4 +497,60 @@ func namedBehindPtr(t types.Type) *types.Named {
 	}
 	n, _ := t.(*types.Named)
 	return n
+}
+
+
+// panicPropagates: derivation "panics at derivation time" - for the caller. A deferred function that calls recover()
+// and returns normally on some path where the recovered value is not nil turns that panic into a normal return of the
+// deriving function (with zero results: nil optics). Every function of the given packages that calls recover() must,
+// on every path that returns, have found the recovered value nil.
+func panicPropagates(c *core.Ctx, rule string, pkgs ...string) {
+	n := 0
+	for _, pkg := range pkgs {
+		for _, fn := range c.W.SourceFuncs(pkg) {
+			has := false
+			for _, b := range fn.Blocks {
+				for _, in := range b.Instrs {
+					if call, ok := in.(*ssa.Call); ok {
+						if bi, isB := call.Call.Value.(*ssa.Builtin); isB && bi.Name() == "recover" {
+							has = true
+						}
+					}
+				}
+			}
+			if !has {
+				continue
+			}
+			n++
+			name := pkgShort(pkg) + "." + fnLabel(fn)
+			an := c.AnalyzeLoops(fn)
+			if problems(c, rule, name, an) {
+				continue
+			}
+			ok := true
+			for _, p := range an.AllPaths() {
+				if p.Exit != ir.ExitReturn {
+					continue
+				}
+				for _, st := range p.Events(ir.KCall) {
+					if st.Callee == nil || st.Callee.Op != "builtin" || st.Callee.Aux != "recover" || st.R == nil {
+						continue
+					}
+					if polarity(p, &ir.Term{Op: "bin", Aux: "==", Args: sorted2(ir.Nil, st.R)}) <= 0 {
+						ok = false
+						c.Fail(rule, name, lastPos(p), "the function recovers a panic and returns normally on a path that has not found the recovered value nil: a panic raised during derivation (reflect's own panics are plain strings, not errors) is swallowed and the deriving function returns zero optics instead of panicking")
+					}
+				}
+				if !ok {
+					break
+				}
+			}
+			if ok {
+				c.Ok(rule, name, fn.Pos(), "every returning path found recover() == nil")
+			}
+		}
+	}
+	if n == 0 {
+		c.Ok(rule, "hseq+optics", 0, "no function calls recover()")
+	}
 }
